@@ -37,25 +37,25 @@ HAND = {
     'C20': 'trailing 0xAA not kept; checksum test dropped; noise before a marker not trimmed',
 }
 STEER = {
-    "codec": "Choose a mechanism that is NOT in the list above; the list is long, so be inventive. Angles nobody has used yet: "
-             "a change in nmea2000/consts.py (an enum member renamed, renumbered or aliased); in how NMEA2000Field / "
-             "NMEA2000Message are constructed (argument order, a default, a field silently dropped or duplicated); in the "
-             "handling of repeated field sets, of fields that depend on an earlier field (BINARY length, INDIRECT_LOOKUP, "
-             "DYNAMIC_FIELD_*), of the LAST field of a definition, of definitions shorter than their frame; in lookups whose "
-             "values are bit masks; in string trimming rules ('@', blanks, 0x00, 0xFF terminators); in the interplay of "
-             "`value is None` and `raw_value is None`. Keep the change tiny and plausible.",
-    "state": "Choose a mechanism that is NOT in the list above; the list is long, so be inventive. Angles nobody has used yet: "
-             "what the decoder does with its OUTPUT objects (returning an object it keeps and later changes; two messages sharing "
-             "a fields list or an IsoName); per-source state other than the identity (anything keyed by source that survives a "
-             "re-claim); the dump file handle (opened when, flushed when, closed when, reopened after close()); the decoder's "
-             "close(); unsupported / unknown PGN bookkeeping (sets that decide whether something is logged or skipped); the "
-             "order in which include / exclude / dump / manufacturer checks are applied when several are configured at once.",
-    "async": "Choose a mechanism that is NOT in the list above; the list is long, so be inventive. Angles nobody has used yet: "
-             "the client's decoder and encoder objects across reconnects (re-created? shared? closed in close()?), the dump "
-             "file of a client's decoder at close(), logging calls that evaluate something expensive or failing (an f-string that "
-             "raises), set_receive_callback / set_status_callback called with None, a client used from two event loops one after "
-             "the other, a client constructed outside a running loop, the State enum and its comparisons, properties that "
-             "expose internal objects (queue, lock), and anything in cli.py or __init__.py that wires these together.",
+    "codec": "Choose a mechanism that is NOT in the list above (it is long: read it carefully). Two suggestions that have "
+             "hardly been used: (1) a slip that only shows for the COMBINATION of two fields of one message (one field's value "
+             "changes how another is read or written: shared scratch variable, wrong running offset after a variable-length "
+             "field, a sign or scale taken from the neighbouring field); (2) a slip in the text / binary WRITERS and READERS "
+             "for a rarely exercised header value (Actisense 5-digit header with source >= 0x80 or priority 7; plain-text "
+             "lines with a length column that disagrees with the data; Yacht Devices lines with fewer than 8 data bytes; EByte "
+             "length nibble 0; USB length byte > 8). Small, plausible, and silent.",
+    "state": "Choose a mechanism that is NOT in the list above (it is long: read it carefully). Two suggestions that have "
+             "hardly been used: (1) something that depends on the ORDER in which two different sources or two different PGNs "
+             "are first seen by a decoder; (2) something that makes the decoder's answer for a frame depend on a frame it "
+             "RETURNED earlier (not only on frames it dropped): for example a returned message that is kept and later mutated, "
+             "a completed message whose record influences the next message with another counter, an identity attached to the "
+             "wrong one of two interleaved messages.",
+    "async": "Choose a mechanism that is NOT in the list above (it is long: read it carefully). Two suggestions that have "
+             "hardly been used: (1) the interplay of the network-map seeding task (build_network_map=True: ISO requests sent 2, 4 "
+             "and 6 s after connecting) with faults, reconnects, send() and close(); (2) what happens when the application "
+             "calls the public API in an order the examples never use: send() before connect(), connect() after close(), "
+             "close() before connect(), set_*_callback after connect, two connect() calls at once, connect() from inside a "
+             "callback.",
 }
 GROUP = {**{f"C{i:02d}": "codec" for i in (1, 2, 5, 6, 7, 8, 9, 15, 17, 18)}, **{f"C{i:02d}": "state" for i in (3, 4, 10, 11, 16)},
          **{f"C{i:02d}": "async" for i in (12, 13, 14, 19, 20)}}
